@@ -15,7 +15,7 @@ pub mod verif_support {
     #[cfg(not(kani))]
     macro_rules! sym_int { ($($t:ty),*) => { $( impl Sym for $t {
         fn sym() -> Self {
-            let b = next_bytes();
+            let b = next_bytes(core::mem::size_of::<$t>());
             let mut a = [0u8; core::mem::size_of::<$t>()];
             assert_eq!(a.len(), b.len(), "replay value width mismatch");
             a.copy_from_slice(&b);
@@ -26,7 +26,7 @@ pub mod verif_support {
         #[cfg(kani)]
         fn sym() -> Self { kani::any() }
         #[cfg(not(kani))]
-        fn sym() -> Self { next_bytes()[0] != 0 }
+        fn sym() -> Self { next_bytes(1)[0] & 1 != 0 }
     }
     impl<const N: usize> Sym for [u8; N] {
         #[cfg(kani)]
@@ -51,14 +51,113 @@ pub mod verif_support {
 
     #[cfg(not(kani))]
     thread_local! { static VALS: std::cell::RefCell<(Vec<Vec<u8>>, usize)> = std::cell::RefCell::new((Vec::new(), 0)); }
+    /// witness-search mode (native only): PRNG state; 0 = replay mode
     #[cfg(not(kani))]
-    fn next_bytes() -> Vec<u8> {
+    thread_local! { static RNG: std::cell::Cell<u64> = std::cell::Cell::new(0); }
+    #[cfg(not(kani))]
+    fn rnd() -> u64 {
+        RNG.with(|r| {
+            // splitmix64
+            let mut z = r.get().wrapping_add(0x9E3779B97F4A7C15);
+            r.set(z);
+            z = (z ^ (z >> 30)).wrapping_mul(0xBF58476D1CE4E5B9);
+            z = (z ^ (z >> 27)).wrapping_mul(0x94D049BB133111EB);
+            z ^ (z >> 31)
+        })
+    }
+    #[cfg(not(kani))]
+    const BYTES: &[u8] = b"/.aAzZ09-_:@ %~gmx\x00\x7f\x80\xff+,;=!$&'()*";
+    /// a biased random value of `w` octets (little endian): boundary values, small values, powers of two
+    /// and their neighbours, earlier values of the same width and their neighbours, uniform values
+    #[cfg(not(kani))]
+    fn random_bytes(w: usize) -> Vec<u8> {
+        let bits = (w * 8) as u32;
+        let mask: u128 = if bits >= 128 { u128::MAX } else { (1u128 << bits) - 1 };
+        let uni = ((rnd() as u128) << 64 | rnd() as u128) & mask;
+        let prev: Option<u128> = VALS.with(|v| {
+            let v = v.borrow();
+            let same: Vec<&Vec<u8>> = v.0.iter().filter(|x| x.len() == w).collect();
+            if same.is_empty() { None } else {
+                let x = same[(rnd() % same.len() as u64) as usize];
+                let mut a = [0u8; 16];
+                a[..w].copy_from_slice(x);
+                Some(u128::from_le_bytes(a))
+            }
+        });
+        let k = (rnd() % bits as u64) as u32;
+        let val: u128 = if w == 1 && rnd() % 3 != 0 {
+            BYTES[(rnd() % BYTES.len() as u64) as usize] as u128
+        } else {
+            match rnd() % 20 {
+                0 => 0,
+                1 => 1,
+                2 => mask,
+                3 => mask - 1,
+                4 | 5 | 6 => (rnd() % 16) as u128,
+                7 => 1u128 << k,
+                8 => (1u128 << k).wrapping_sub(1),
+                9 => (1u128 << k).wrapping_add(1),
+                10 | 11 => prev.unwrap_or(uni),
+                12 => prev.unwrap_or(uni).wrapping_add(1),
+                13 => prev.unwrap_or(uni).wrapping_sub(1),
+                14 => (rnd() % 300) as u128,
+                15 => uni >> k,
+                16 => mask ^ (uni >> k),
+                _ => uni,
+            }
+        } & mask;
+        val.to_le_bytes()[..w].to_vec()
+    }
+    #[cfg(not(kani))]
+    fn next_bytes(w: usize) -> Vec<u8> {
+        if RNG.with(|r| r.get()) != 0 {
+            let b = random_bytes(w);
+            VALS.with(|v| v.borrow_mut().0.push(b.clone()));
+            return b;
+        }
         VALS.with(|v| {
             let mut v = v.borrow_mut();
             let i = v.1;
             v.1 += 1;
             v.0.get(i).cloned().expect("replay ran out of values")
         })
+    }
+    /// Some(n) when the native run is a witness search over n random inputs (env VERIF_SEARCH_N)
+    #[cfg(not(kani))]
+    pub fn search_n() -> Option<u64> {
+        std::env::var("VERIF_SEARCH_N").ok().and_then(|s| s.parse().ok())
+    }
+    /// witness search: run `f` on `n` biased random inputs; report the first input on which it panics
+    /// for a reason other than a false assumption (in the VERIF_REPLAY_VALS format, for exact replay)
+    #[cfg(not(kani))]
+    pub fn search(name: &str, n: u64, f: fn()) {
+        let seed: u64 = std::env::var("VERIF_SEARCH_SEED").ok().and_then(|s| s.parse().ok()).unwrap_or(1);
+        let hook = std::panic::take_hook();
+        std::panic::set_hook(Box::new(|_| {}));
+        let (mut accepted, mut found) = (0u64, None);
+        for i in 0..n {
+            RNG.with(|r| r.set((seed.wrapping_mul(0x2545F4914F6CDD1D) ^ (i + 1).wrapping_mul(0x9E3779B97F4A7C15)) | 1));
+            VALS.with(|v| *v.borrow_mut() = (Vec::new(), 0));
+            match std::panic::catch_unwind(f) {
+                Ok(()) => accepted += 1,
+                Err(e) => {
+                    let msg = e.downcast_ref::<String>().cloned()
+                        .or_else(|| e.downcast_ref::<&str>().map(|s| s.to_string())).unwrap_or_default();
+                    if msg.contains("REPLAY-ASSUMPTION-FALSE") { continue }
+                    let vals = VALS.with(|v| v.borrow().0.iter()
+                        .map(|x| x.iter().map(|b| b.to_string()).collect::<Vec<_>>().join(","))
+                        .collect::<Vec<_>>().join(";"));
+                    found = Some((vals, msg));
+                    break;
+                }
+            }
+        }
+        RNG.with(|r| r.set(0));
+        std::panic::set_hook(hook);
+        match found {
+            Some((vals, msg)) => println!("SEARCH-FOUND {} vals={} msg={}", name, vals, msg.replace('\n', " ")),
+            None => println!("SEARCH-DONE {} tried={} accepted={}", name, n, accepted),
+        }
     }
     /// load values from env VERIF_REPLAY_VALS = "1,2,3;4;5,6" (bytes per any())
     #[cfg(not(kani))]
@@ -88,6 +187,11 @@ macro_rules! verif_harness {
         #[cfg(verif_replay)]
         #[test]
         fn $name() {
+            if let Some(n) = crate::verif_support::search_n() {
+                fn one() { $( let $v: $t = crate::verif_support::any(); )* $body; }
+                crate::verif_support::search(stringify!($name), n, one);
+                return;
+            }
             crate::verif_support::load_vals();
             $( let $v: $t = crate::verif_support::any(); )*
             println!("REPLAY-INPUTS {}", stringify!($name));
@@ -108,6 +212,36 @@ macro_rules! verif_harness {
         #[cfg(verif_replay)]
         #[test]
         fn $name() {
+            if let Some(n) = crate::verif_support::search_n() {
+                fn one() { $( let $v: $t = crate::verif_support::any(); )* $body; }
+                crate::verif_support::search(stringify!($name), n, one);
+                return;
+            }
+            crate::verif_support::load_vals();
+            $( let $v: $t = crate::verif_support::any(); )*
+            println!("REPLAY-INPUTS {}", stringify!($name));
+            $( println!("  {} = {:?}", stringify!($v), $v); )*
+            $body;
+            println!("REPLAY-PASSED {}", stringify!($name));
+        }
+    };
+}
+
+/// `verif_search!{ name; |a: T, ..| { body } }`: native witness search / replay only (no Kani proof):
+/// for code CBMC cannot carry (Bytes, String, async).  Never counted as proved; used to attach a
+/// concrete failing input of the real code to an obligation.
+#[cfg(any(kani, verif_replay))]
+#[allow(unused_macros)]
+macro_rules! verif_search {
+    ($name:ident ; |$($v:ident : $t:ty),*| $body:block) => {
+        #[cfg(verif_replay)]
+        #[test]
+        fn $name() {
+            if let Some(n) = crate::verif_support::search_n() {
+                fn one() { $( let $v: $t = crate::verif_support::any(); )* $body; }
+                crate::verif_support::search(stringify!($name), n, one);
+                return;
+            }
             crate::verif_support::load_vals();
             $( let $v: $t = crate::verif_support::any(); )*
             println!("REPLAY-INPUTS {}", stringify!($name));
